@@ -273,9 +273,21 @@ fn cold_put_under_drain(sink: &mut Sink, millis: u64) -> bool {
         reads
     }) };
     let stats = |kind: StatsType| cache.stats_summary().get(&kind).unwrap_or(0);
+    // warm: the resident's counter reads at least 7 in EVERY row of the sketch as the sketch stands (`AccessAdded` would not do: it
+    // counts a batch when it is handed to the consumer's queue, not when the consumer has applied it — the second version of this
+    // phase waited for that statistic and was refused once in a thorough run, by a put that overtook the first batch). From
+    // then on it never reads lower: only the resident's hash is ever incremented, and an ageing step halves 15 to 7.
+    let hot_counter_at_least_7 = || {
+        let sketch = cache.verif_snapshot().sketch;
+        sketch.rows.len() == 4 && sketch.rows.iter().zip(sketch.seeds.iter()).all(|(row, seed)| {
+            let position = (hot ^ seed) % sketch.total_counters;
+            let byte = row[(position / 2) as usize];
+            (if position % 2 == 1 { byte >> 4 } else { byte & 0x0f }) >= 7
+        })
+    };
     let warm_until = Instant::now() + Duration::from_secs(30);
-    while stats(StatsType::AccessAdded) < 100_000 && Instant::now() < warm_until { std::thread::sleep(Duration::from_millis(2)); }
-    let warmed = stats(StatsType::AccessAdded) >= 100_000;
+    let mut warmed = false;
+    while Instant::now() < warm_until { if hot_counter_at_least_7() { warmed = true; break; } std::thread::sleep(Duration::from_millis(2)); }
     let until = Instant::now() + Duration::from_millis((millis / 2).clamp(150, 1500));
     let (mut puts, mut refused, mut skipped) = (0u64, 0u64, 0u64);
     while accepted && warmed && Instant::now() < until {
